@@ -25,6 +25,7 @@ type AOp struct {
 	J   int    `json:"j,omitempty"`   // values the callee leaves below its results
 	P   int    `json:"p,omitempty"`   // results produced
 	F   bool   `json:"f,omitempty"`   // the callee fails (protected vias only)
+	H   string `json:"h,omitempty"`   // error handler of a protected call: go | lua | failing
 }
 
 // RegOpt selects the registry configuration of the state.
@@ -301,13 +302,13 @@ type apiSeg struct {
 
 // midCall is a call made in the middle of a script: one CCall case.
 type midCall struct {
-	op                 AOp
-	l0, after          []string
-	results            []int
-	fails, gotErr      bool
-	fault              string
-	spBefore, spAfter  int
-	preSame            bool
+	op                AOp
+	l0, after         []string
+	results           []int
+	fails, gotErr     bool
+	fault, hverdict   string
+	spBefore, spAfter int
+	preSame           bool
 }
 
 func producedN(n int) []int {
@@ -337,45 +338,23 @@ func doMidCall(L *lua.LState, e *cellEnc, o AOp, base int) *midCall {
 		}
 		return len(mc.results)
 	}
-	load := func(src string, up lua.LValue) lua.LValue {
-		f, err := L.LoadString(src)
-		if err != nil {
-			panic(fmt.Sprint(err, "\n", src))
-		}
-		L.Push(f)
-		L.Push(up)
-		L.Call(1, 1)
-		fn := L.Get(-1)
-		L.Pop(1)
-		return fn
-	}
 	var fn lua.LValue
-	switch o.C {
-	case "lua":
+	switch {
+	case o.C == "lua":
 		fn = luaCallee(L, CallIn{Callee: "lua", NArgs: o.N, Junk: o.J, Produced: o.P, Fails: o.F})
-	case "luav":
+	case o.C == "luav":
 		fn = luaCallee(L, CallIn{Callee: "luavararg", NArgs: o.N, Junk: o.J, Produced: o.P, Fails: o.F})
-	case "luatail":
-		fn = load("local g = ...\nreturn function(a, ...) local j0, j1 = 1, 2; return g(a, ...) end", L.NewFunction(gfn))
-	case "reenter":
-		// a Lua function that itself calls a host function working on its own list, then fills temporaries
-		sub := L.NewFunction(func(L *lua.LState) int {
-			L.SetTop(7)
-			L.Insert(lua.LNumber(5), 2)
-			L.Pop(3)
-			L.Replace(1, lua.LNumber(31))
-			return 2
-		})
-		rs := luaArgs(mc.results)
-		body := "local sub = ...\nreturn function(...) local a, b = sub(1, 2, 3); local t = {1, 2, 3, 4, 5, 6, 7, 8, a, b}\n"
-		if o.F {
-			body += "  error('callee failed')\n"
-		}
-		fn = load(body+"  return "+strings.Join(rs, ", ")+"\nend", sub)
-	case "nonfn":
+	case isWrapped(o.C):
+		fn, mc.results = wrappedCallee(L, o.C, o.J, o.P, o.F)
+	case o.C == "nonfn":
 		fn = lua.LNumber(1)
 	default:
 		fn = L.NewFunction(gfn)
+	}
+	hcalls := 0
+	var handler *lua.LFunction
+	if o.Via == "cbpp" || o.Via == "pcall" {
+		handler = errHandler(L, o.H, &hcalls)
 	}
 	args := make([]lua.LValue, o.N)
 	for i := range args {
@@ -403,13 +382,16 @@ func doMidCall(L *lua.LState, e *cellEnc, o AOp, base int) *midCall {
 			if o.Via == "call" {
 				L.Call(o.N, o.I)
 			} else {
-				err = L.PCall(o.N, o.I, nil)
+				err = L.PCall(o.N, o.I, handler)
 			}
 		default:
-			err = L.CallByParam(lua.P{Fn: fn, NRet: o.I, Protect: o.Via == "cbpp"}, args...)
+			err = L.CallByParam(lua.P{Fn: fn, NRet: o.I, Protect: o.Via == "cbpp", Handler: handler}, args...)
 		}
 	}()
 	mc.gotErr = err != nil
+	if handler != nil && mc.fault == "" {
+		mc.hverdict = handlerVerdict(o.H, hcalls, mc.fails, err)
+	}
 	mc.spAfter = lua.VerifSp(L)
 	if top := lua.VerifRegTop(L); top >= base {
 		mc.after = e.rawRange(L, base, top)
@@ -447,6 +429,11 @@ func runApi(w *lib.Writer, in ApiIn, class string) {
 			top := lua.VerifRegTop(L)
 			s := &apiSeg{pre: e.rawRange(L, 0, base), l0: e.rawRange(L, base, top), above: e.rawRange(L, top, top+aboveWindow)}
 			s.pad = lua.VerifRegCap(L) - top - len(s.above)
+			// trailing Go-nil cells of the window are the same as capacity (mkR appends `fresh pad`)
+			for len(s.above) > 0 && s.above[len(s.above)-1] == "None" {
+				s.above = s.above[:len(s.above)-1]
+				s.pad++
+			}
 			items = append(items, item{seg: s})
 			return s
 		}
@@ -527,7 +514,7 @@ func runApi(w *lib.Writer, in ApiIn, class string) {
 		mc := it.call
 		id := w.Add(lib.Case{Input: in, Observed: map[string]any{"err": mc.gotErr, "after": mc.after, "sp": []int{mc.spBefore, mc.spAfter}}, Class: "api-call/" + mc.op.Via + "/" + mc.op.C,
 			Nontrivial: mc.op.I != mc.op.P || mc.fails,
-			Coq: fmt.Sprintf("CCall %s %s %s %s %s %s", lib.CoqList(mc.l0), lib.CoqList(cellsOf(mc.results)), z(mc.op.I), lib.CoqBool(mc.fails), lib.CoqBool(mc.gotErr), lib.CoqList(mc.after))})
+			Coq:        fmt.Sprintf("CCall %s %s %s %s %s %s", lib.CoqList(mc.l0), lib.CoqList(cellsOf(mc.results)), z(mc.op.I), lib.CoqBool(mc.fails), lib.CoqBool(mc.gotErr), lib.CoqList(mc.after))})
 		if first < 0 {
 			first = id
 		}
@@ -536,6 +523,9 @@ func runApi(w *lib.Writer, in ApiIn, class string) {
 		} else {
 			if !mc.preSame {
 				w.GoFail(id, "the call disturbed registry cells of the callers")
+			}
+			if mc.hverdict != "" {
+				w.GoFail(id, mc.hverdict)
 			}
 			if mc.spBefore != mc.spAfter {
 				w.GoFail(id, fmt.Sprintf("call-stack depth %d before the call, %d after", mc.spBefore, mc.spAfter))
@@ -599,6 +589,7 @@ func genApi(r *lib.Rand, depth int, usePath bool) ApiIn {
 			sp := stalePath(r.Intn(3), r.Range(4, 14), hiHows[r.Intn(len(hiHows))], r.Intn(2))
 			copy(in.Path[depth-2:], sp)
 		}
+		fitPath(in.Path, reg)
 	}
 	tag := 1
 	nv := func() int {
@@ -663,20 +654,33 @@ func genApi(r *lib.Rand, depth int, usePath bool) ApiIn {
 				continue
 			}
 			ncalls++
-			o := AOp{K: "call", C: []string{"go", "go", "lua", "luav", "luatail", "reenter", "nonfn"}[r.Intn(7)], Via: []string{"cbp", "cbpp", "cbpp", "call", "pcall"}[r.Intn(5)],
+			o := AOp{K: "call", C: []string{"go", "go", "lua", "luav", "luatail", "luafix", "luapre", "reenter", "nonfn"}[r.Intn(9)], Via: []string{"cbp", "cbpp", "cbpp", "call", "pcall"}[r.Intn(5)],
 				N: r.Intn(4), J: r.Intn(4), P: r.Intn(4), I: r.Range(-1, 4), F: r.Chance(35)}
 			if o.C == "nonfn" {
 				o.P, o.F = 0, false
+			}
+			if r.Chance(40) {
+				o.H = []string{"go", "lua", "failing"}[r.Intn(3)] // (used by the protected vias)
+			}
+			if reg.Max > 0 && r.Chance(15) {
+				// many results / a large NRet on a registry that has to grow while the results are put in place
+				if r.Bool() {
+					o.P = r.Range(15, 40)
+				} else {
+					o.I = r.Range(15, 50)
+				}
 			}
 			if (o.F || o.C == "nonfn") && (o.Via == "cbp" || o.Via == "call") {
 				o.Via = []string{"cbpp", "pcall"}[r.Intn(2)]
 			}
 			in.Ops = append(in.Ops, o)
 			if !o.F && o.C != "nonfn" {
-				if o.I < 0 {
-					top += o.P
-				} else {
+				if o.I >= 0 {
 					top += o.I
+				} else if o.C == "luapre" {
+					top += o.P + 1
+				} else {
+					top += o.P
 				}
 			}
 			if r.Chance(50) {
@@ -762,7 +766,8 @@ type CallIn struct {
 	Protect  bool   `json:"protect"`
 	Fails    bool   `json:"fails"`
 	Reg      RegOpt `json:"reg"`
-	Path     []Lvl  `json:"path,omitempty"` // when present: the callers (Depth = len(Path)); otherwise the alternating chain
+	Path     []Lvl  `json:"path,omitempty"`    // when present: the callers (Depth = len(Path)); otherwise the alternating chain
+	Handler  string `json:"handler,omitempty"` // error handler given to PCall / CallByParam{Protect}: go | lua | failing
 }
 
 func luaCallee(L *lua.LState, in CallIn) *lua.LFunction {
@@ -839,6 +844,8 @@ func runCall(w *lib.Writer, in CallIn, class string) {
 		fn = L.NewFunction(gfn)
 	case "lua", "luavararg":
 		fn = luaCallee(L, in)
+	case "luatail", "luafix", "luapre", "reenter":
+		fn, results = wrappedCallee(L, in.Callee, in.Junk, in.Produced, in.Fails)
 	case "nonfunction":
 		fn = lua.LNumber(1)
 	case "callable-table", "callable-userdata":
@@ -882,8 +889,11 @@ func runCall(w *lib.Writer, in CallIn, class string) {
 	var pre, l0, preAfter, after []string
 	var gotErr, observed bool
 	var spBefore, spAfter int
+	hcalls, hverdict := 0, ""
 	leaf := func(L *lua.LState) int {
 		callLog = nil // (a path may enter the leaf twice: the last activation is the one reported)
+		hcalls = 0
+		handler := errHandler(L, in.Handler, &hcalls)
 		base := lua.VerifLocalBase(L)
 		pre = e.rawRange(L, 0, base)
 		l0 = e.rawRange(L, base, lua.VerifRegTop(L))
@@ -891,7 +901,7 @@ func runCall(w *lib.Writer, in CallIn, class string) {
 		var err error
 		switch in.Via {
 		case "callbyparam":
-			err = L.CallByParam(lua.P{Fn: fn, NRet: in.NRet, Protect: in.Protect}, args...)
+			err = L.CallByParam(lua.P{Fn: fn, NRet: in.NRet, Protect: in.Protect, Handler: handler}, args...)
 		case "call", "pcall":
 			L.Push(fn)
 			for _, a := range args {
@@ -900,13 +910,16 @@ func runCall(w *lib.Writer, in CallIn, class string) {
 			if in.Via == "call" {
 				L.Call(in.NArgs, in.NRet)
 			} else {
-				err = L.PCall(in.NArgs, in.NRet, nil)
+				err = L.PCall(in.NArgs, in.NRet, handler)
 			}
 		case "gpcall":
 			// GPCall(fn, data): one argument, MultRet
 			err = L.GPCall(func(L *lua.LState) int { L.Remove(1); return gfn(L) }, lua.LNumber(300))
 		}
 		gotErr = err != nil
+		if (in.Via == "callbyparam" && in.Protect) || in.Via == "pcall" {
+			hverdict = handlerVerdict(in.Handler, hcalls, in.Fails || in.Callee == "nonfunction", err)
+		}
 		spAfter = lua.VerifSp(L)
 		_, after = e.dump(L)
 		preAfter = e.rawRange(L, 0, base)
@@ -958,7 +971,7 @@ func runCall(w *lib.Writer, in CallIn, class string) {
 		for i := range as {
 			as[i] = fmt.Sprint(300 + i)
 		}
-		luaErr := L.DoString("return OBJ(" + strings.Join(as, ", ") + ")") != nil
+		luaErr := L.DoString("return OBJ("+strings.Join(as, ", ")+")") != nil
 		L.SetTop(0)
 		luaLog := callLog
 		if luaErr {
@@ -979,6 +992,9 @@ func runCall(w *lib.Writer, in CallIn, class string) {
 	}
 	if !ok {
 		w.GoFail(id, "a caller found its locals changed after the call")
+	}
+	if hverdict != "" {
+		w.GoFail(id, hverdict)
 	}
 	if observed && spBefore != spAfter {
 		w.GoFail(id, fmt.Sprintf("call-stack depth %d before the call, %d after", spBefore, spAfter))
@@ -1010,15 +1026,32 @@ func genCall(r *lib.Rand, depth int, usePath bool) CallIn {
 			sp := stalePath(r.Intn(3), r.Range(4, 14), hiHows[r.Intn(len(hiHows))], r.Intn(2))
 			copy(in.Path[depth-2:], sp)
 		}
+		fitPath(in.Path, reg)
 	}
 	in.Via = []string{"callbyparam", "callbyparam", "callbyparam", "call", "pcall", "gpcall"}[r.Intn(6)]
 	in.Callee = []string{"go", "go", "lua", "lua", "luavararg", "nonfunction", "callable-table", "callable-table", "callable-userdata"}[r.Intn(9)]
+	if usePath && r.Chance(35) {
+		in.Callee = []string{"luatail", "luafix", "luapre", "reenter"}[r.Intn(4)]
+	}
 	in.NArgs = r.Intn(5)
 	in.Junk = r.Intn(4)
 	in.Produced = r.Intn(5)
 	in.NRet = r.Range(-1, 5)
 	in.Protect = r.Chance(70)
 	in.Fails = r.Chance(20)
+	if usePath {
+		if r.Chance(40) {
+			in.Handler = []string{"go", "lua", "failing"}[r.Intn(3)]
+		}
+		if reg.Max > 0 && r.Chance(20) {
+			// many results / a large NRet on a registry that has to grow while the results are put in place
+			if r.Bool() {
+				in.Produced = r.Range(15, 40)
+			} else {
+				in.NRet = r.Range(15, 50)
+			}
+		}
+	}
 	if in.Via == "gpcall" {
 		in.Callee, in.NArgs, in.NRet, in.Protect = "go", 1, -1, true
 	}
@@ -1131,7 +1164,7 @@ func runCopyRet(w *lib.Writer, in CopyRetIn, class string) {
 	after := e.rawRange(L, 0, ntop)
 	id := w.Add(lib.Case{Input: in, Observed: map[string]any{"top": ntop, "cells": after}, Class: class,
 		Nontrivial: in.N != in.B-1 && in.Regv < in.Start,
-		Coq: fmt.Sprintf("CCopyRet %s %s %d %s %s %s %s %d %s", lib.CoqList(cells), lib.CoqList(above), pad, z(in.Regv), z(in.Start), z(in.N), z(in.B), ntop, lib.CoqList(after))})
+		Coq:        fmt.Sprintf("CCopyRet %s %s %d %s %s %s %s %d %s", lib.CoqList(cells), lib.CoqList(above), pad, z(in.Regv), z(in.Start), z(in.N), z(in.B), ntop, lib.CoqList(after))})
 	if fault != "" {
 		if len(fault) > 150 {
 			fault = fault[:150]
